@@ -383,7 +383,12 @@ def run_frame(case, ctx):
             keyf = sf.Frame(m, index=f.index, columns=f.columns)
             keyp = keyf.iloc[::-1, ::-1] if nr and nc else keyf
             for kname, key in (('array', m), ('frame', keyf), ('frame-permuted', keyp)):
-                for vname, v in (('element', FILL), ('array-2d', arr2)):
+                vframe = sf.Frame(arr2, index=f.index, columns=f.columns)
+                values_ = [('element', FILL), ('array-2d', arr2)]
+                if nr and nc:
+                    # label-aligned Frame values: same columns with the rows in another order, and both axes in another order
+                    values_ += [('frame-rows-reversed', vframe.iloc[::-1]), ('frame-both-reversed', vframe.iloc[::-1, ::-1]), ('frame-columns-reversed', vframe.iloc[:, ::-1])]
+                for vname, v in values_:
                     ctx.transition()
                     tag = f'frame.assign.bloc|key={kname}|value={vname}'
                     try:
